@@ -174,7 +174,7 @@ fn compare_events(left: &[Event], right: &[Event]) -> io::Result<()> {
 
 #[cfg(kani)]
 #[path = "/verif/harness/rip-log/lib.rs"]
-mod verif_kani;
+pub mod verif_kani;
 
 #[cfg(test)]
 mod tests {
